@@ -9,6 +9,7 @@ import Reduino.Lemmas.C01f
 import Reduino.Lemmas.C01g
 import Reduino.Lemmas.C01h
 import Reduino.Lemmas.C01i
+import Reduino.Lemmas.C01r
 /- helper lemmas for Props/C01.lean (individual Mathlib modules may be imported here) -/
 namespace Reduino.Lemmas.C01
 end Reduino.Lemmas.C01
